@@ -48,6 +48,7 @@ RULE = (
     "waiting for loop quiescence}. Histories are built against a model so that every window ends with all installed "
     "suspenders released. Non-trivial: a call was gated by a tripped suspender, or a remove happened while the "
     "suspender was tripped / holding a suspension, or a put hit a removed suspender. Distinct = canonical JSON."
+    ' Also twin suspenders (same class, same signal, default message: identical justification texts) gating a call and released one after the other.'
 )
 ASSUMPTIONS = [
     "SuspenderBase.__call__ is only ever invoked from non-loop threads (main thread or one helper thread), as in production (pyepics callback threads)",
